@@ -53,7 +53,8 @@ class C05(object):
     assumptions = ['sector/country codes whose concatenations collide (A + B_C vs A_B + C) are not generated',
                    'comments (free-text descriptions) are not scanned for placeholders']
     required_counters = ('models.judged', 'lhs.judged', 'rhs_names.judged', 'meaning.judged', 'embedded.judged',
-                         'embedded.in_global_equation', 'placeholders.handed_out')
+                         'embedded.in_global_equation', 'placeholders.handed_out', 'embedded.form.term_product',
+                         'embedded.form.term_ratio', 'embedded.form.string_rhs', 'late_sector.declared')
 
     def n_cases(self, tier):
         return 32 if tier == 'quick' else 1200
@@ -89,24 +90,56 @@ class C05(object):
         try:
             if case['early_full_codes']:
                 mod._GenerateFullSectorCodes()
+            if case['early_full_codes']:
+                # codes were generated mid-construction; a sector declared afterwards must still be canonical
+                from sfc_models.sector import Sector as _S
+                ck0, country0 = sorted(b.countries.items())[0]
+                late = _S(country0, 'LATE', 'declared after the full codes were generated', has_F=False)
+                late.AddVariable('X', 'a constant', '3.0')
+                late.AddVariable('Y', 'uses a local name', 'X + 1.0')
+                sectors.append(((ck0, 'LATE'), late))
+                rec.count('late_sector.declared')
             for i in range(case['n_embed']):
                 (tk, tsec) = rng.choice(sectors)
-                locs = [l for l in EMBED_LOCALS if l in tsec.EquationBlock]
+                locs = [l for l in EMBED_LOCALS + ['X', 'Y'] if l in tsec.EquationBlock]
                 if not locs:
                     continue
                 tl = rng.choice(locs)
                 name = tsec.GetVariableName(tl)
+                was_ph = PLACEHOLDER.match(name) is not None
                 where = rng.choice(['other', 'other', 'same', 'global'])
+                form = rng.choice(['blob', 'blob', 'term_product', 'term_ratio', 'term_minus', 'string_rhs'])
                 var = 'XTRA%d' % i
                 if where == 'global':
                     mod.AddGlobalEquation('glob_%d' % i, 'a model-level equation', '2.0*%s + 1.0' % name)
-                    embedded.append((None, 'glob_%d' % i, tsec, tl, PLACEHOLDER.match(name) is not None))
-                else:
-                    holder = tsec if where == 'same' else rng.choice(sectors)[1]
-                    if var in holder.EquationBlock:
-                        continue
+                    embedded.append((None, 'glob_%d' % i, tsec, tl, was_ph, 'blob', None))
+                    continue
+                holder = tsec if where == 'same' else rng.choice(sectors)[1]
+                if var in holder.EquationBlock:
+                    continue
+                second = None
+                if form == 'blob':
                     holder.AddVariable(var, 'embeds a requested name', '2.0*%s + 1.0' % name)
-                    embedded.append((holder, var, tsec, tl, PLACEHOLDER.match(name) is not None))
+                elif form == 'term_product':
+                    holder.AddVariable(var, 'embeds a requested name in a product term', '')
+                    holder.AddTermToEquation(var, name + '*0.5')
+                elif form == 'term_minus':
+                    holder.AddVariable(var, 'embeds a requested name in a signed term', '')
+                    holder.AddTermToEquation(var, '-' + name)
+                elif form == 'term_ratio':
+                    (tk2, tsec2) = rng.choice(sectors)
+                    locs2 = [l for l in EMBED_LOCALS + ['X', 'Y'] if l in tsec2.EquationBlock]
+                    if not locs2:
+                        continue
+                    tl2 = rng.choice(locs2)
+                    name2 = tsec2.GetVariableName(tl2)
+                    holder.AddVariable(var, 'ratio of two requested names', '')
+                    holder.AddTermToEquation(var, name + '/' + name2)
+                    second = (tsec2, tl2)
+                else:
+                    from sfc_models.equation import Equation as _E
+                    holder.AddVariableFromEquation(_E(var, 'string rhs that is a simple term', rhs=name + '*' + name))
+                embedded.append((holder, var, tsec, tl, was_ph, form, second))
             with contextlib.redirect_stdout(io.StringIO()):
                 if case['solve']:
                     mod.EquationSolver.MaxIterations = 3000
@@ -135,8 +168,8 @@ class C05(object):
         rec.count('models.judged')
         return {'verdict': 'violated' if rec.violations else 'held', 'nontrivial': len(embedded) >= 1, 'shape': shape,
                 'counters': rec.counters, 'violations': rec.violations[:5],
-                'obs': {'n_handed': len(handed), 'embedded': [(h.Code if h else 'GLOBAL', v, t.Code, l, p)
-                                                              for h, v, t, l, p in embedded][:6]}}
+                'obs': {'n_handed': len(handed), 'embedded': [(h.Code if h else 'GLOBAL', v, t.Code, l, p, f)
+                                                              for h, v, t, l, p, f, _ in embedded][:6]}}
 
     def judge(self, rec, mod, text, embedded, spec):
         blk = B.split_block(text)
@@ -230,7 +263,7 @@ class C05(object):
                         rec.violate('emitted_equation_differs_from_sector_local_form',
                                     {'var': full, 'local': local_rhs, 'emitted': emitted[full]})
             # embedded names evaluate to the variable they were requested for
-            for holder, var, tsec, tl, was_ph in embedded:
+            for holder, var, tsec, tl, was_ph, form, second in embedded:
                 tfc = (tsec.Parent.Code + '_' + tsec.Code) if multi else tsec.Code
                 target = tfc + '__' + tl
                 if holder is None:
@@ -244,18 +277,31 @@ class C05(object):
                 try:
                     got = ev(emitted[row], val)
                 except Exception as e:
-                    rec.violate('embedded_name_dangling', {'row': row, 'rhs': emitted[row], 'err': repr(e)},
+                    rec.violate('embedded_name_dangling', {'row': row, 'rhs': emitted[row], 'err': repr(e), 'form': form},
                                 mechanism='placeholder_survives')
                     continue
                 rec.count('embedded.judged')
+                rec.count('embedded.form.' + form)
                 if holder is None:
                     rec.count('embedded.in_global_equation')
                 if was_ph:
                     rec.count('embedded.was_placeholder')
-                exp = 2.0 * val[target] + 1.0
+                tv = float(val[target])
+                if form == 'blob':
+                    exp = 2.0 * tv + 1.0
+                elif form == 'term_product':
+                    exp = tv * 0.5
+                elif form == 'term_minus':
+                    exp = -tv
+                elif form == 'string_rhs':
+                    exp = tv * tv
+                else:
+                    s2, l2 = second
+                    fc2 = (s2.Parent.Code + '_' + s2.Code) if multi else s2.Code
+                    exp = tv / float(val[fc2 + '__' + l2])
                 if abs(got - exp) > 1e-12 * max(1.0, abs(exp)):
                     rec.violate('embedded_name_resolved_to_wrong_variable', {'row': row, 'rhs': emitted[row],
-                                                                              'requested': target})
+                                                                              'requested': target, 'form': form})
 
 
 PROP = C05()
